@@ -28,11 +28,15 @@ package rapidproto
 //@   property C18
 //@   mode math
 //@   no-safety
+//@   note a valid Timestamp: 0001-01-01T00:00:00Z .. 9999-12-31T23:59:59Z, nanos in [0, 999999999]
+//@   assert[valid-timestamp] at `setSecondsNanosFields(t, msg, seconds, nanos)`: -62135596800 <= seconds && seconds <= 253402300799 && 0 <= nanos && nanos <= 999999999
 
 //@ func GeneratorOptions.genDuration
 //@   property C18
 //@   mode math
 //@   no-safety
+//@   note a valid Duration: |seconds| <= 315576000000 and seconds and nanos never have opposite signs
+//@   assert[valid-duration] at `setSecondsNanosFields(t, msg, seconds, nanos)`: -315576000000 <= seconds && seconds <= 315576000000 && (seconds < 0 ==> nanos <= 0) && (seconds > 0 ==> nanos >= 0)
 
 //@ func GeneratorOptions.setFields
 //@   property C18
